@@ -8,7 +8,8 @@ open IpcHub.Drv IpcHub.Tables IpcHub.TableSpec IpcHub.UserTable IpcHub.Route
     `users <op> …` with   s,<name>,<password>,<admin>,<push>,<pull>,<update_password>
     `routes <op> …` with  s,<pattern>,<url>,<keepalive>,<urlok>
     both:  d,<key>  g,<key>  a  f (Flush)  r (restart: Reset from the file)
-           e | E   (Flush while the provider is down / the file system refuses)
+           e | E | R   (Flush while the provider is down / the table file cannot be opened /
+                       cannot be renamed into place)
            k,<hook>,<part>   (Flush is called and the process dies at that crash point of
                               EncodeJSONFile, `part` ∈ - 0 1 h m a = bytes of the write in
                               progress: none, 0, 1, half, all but one, all; then a restart)
@@ -75,6 +76,7 @@ def parseCommon {V : Type} (entry : List String → Option V) (p : List String) 
   | ["r"] => some .restart
   | ["e"] => some .failFlush
   | ["E"] => some .failFlush
+  | ["R"] => some .failFlush
   | ["k", hook, part] => some (.crash hook part)
   | ["x", kind] => some (.setDisk kind (parseTable entry kind))
   | _ => none
